@@ -1,5 +1,8 @@
 mod ast;
 mod c01;
+mod c03;
+mod c07;
+mod c13;
 mod c19;
 mod c19b;
 mod common;
@@ -65,6 +68,9 @@ fn main() {
         "C01" => c01::run(c01::Prop::C01, tier),
         "C02" => c01::run(c01::Prop::C02, tier),
         "C09" => c01::run(c01::Prop::C09, tier),
+        "C03" => c03::run(tier),
+        "C07" => c07::run(tier),
+        "C13" => c13::run(tier),
         "kat" => match kat::run_kats() {
             Ok(n) => {
                 println!("{} KATs ok", n);
